@@ -243,9 +243,8 @@ where
         match fl {
             Fl::Raw => VolumeManager::open_root_dir(self, v),
             _ => {
-                let vol = v.to_volume(self);
+                let vol = core::mem::ManuallyDrop::new(v.to_volume(self));
                 let r = vol.open_root_dir().map(|d| d.to_raw_directory());
-                let _ = vol.to_raw_volume();
                 r
             }
         }
@@ -254,17 +253,16 @@ where
         match fl {
             Fl::Raw => with_name!(name, n => VolumeManager::open_dir(self, d, n)),
             _ => {
-                let dir = d.to_directory(self);
+                let dir = core::mem::ManuallyDrop::new(d.to_directory(self));
                 let r = with_name!(name, n => dir.open_dir(n).map(|x| x.to_raw_directory()));
-                let _ = dir.to_raw_directory();
                 r
             }
         }
     }
     fn change_dir(&self, d: RawDirectory, name: Nm) -> R<RawDirectory> {
-        let mut dir = d.to_directory(self);
+        let mut dir = core::mem::ManuallyDrop::new(d.to_directory(self));
         let r = with_name!(name, n => dir.change_dir(n));
-        let now = dir.to_raw_directory();
+        let now = core::mem::ManuallyDrop::into_inner(dir).to_raw_directory();
         r.map(|_| now)
     }
     fn close_dir(&self, fl: Fl, d: RawDirectory) -> R<()> {
@@ -280,9 +278,8 @@ where
         match fl {
             Fl::Raw => with_name!(name, n => VolumeManager::find_directory_entry(self, d, n)),
             _ => {
-                let dir = d.to_directory(self);
+                let dir = core::mem::ManuallyDrop::new(d.to_directory(self));
                 let r = with_name!(name, n => dir.find_directory_entry(n));
-                let _ = dir.to_raw_directory();
                 r
             }
         }
@@ -291,9 +288,8 @@ where
         match fl {
             Fl::Raw => VolumeManager::iterate_dir(self, d, |e| f(e)),
             _ => {
-                let dir = d.to_directory(self);
+                let dir = core::mem::ManuallyDrop::new(d.to_directory(self));
                 let r = dir.iterate_dir(|e| f(e));
-                let _ = dir.to_raw_directory();
                 r
             }
         }
@@ -303,9 +299,8 @@ where
         match fl {
             Fl::Raw => VolumeManager::iterate_dir_lfn(self, d, &mut lb, |e, n| f(e, n)),
             _ => {
-                let dir = d.to_directory(self);
+                let dir = core::mem::ManuallyDrop::new(d.to_directory(self));
                 let r = dir.iterate_dir_lfn(&mut lb, |e, n| f(e, n));
-                let _ = dir.to_raw_directory();
                 r
             }
         }
@@ -314,9 +309,8 @@ where
         match fl {
             Fl::Raw => with_name!(name, n => VolumeManager::open_file_in_dir(self, d, n, mode)),
             _ => {
-                let dir = d.to_directory(self);
+                let dir = core::mem::ManuallyDrop::new(d.to_directory(self));
                 let r = with_name!(name, n => dir.open_file_in_dir(n, mode).map(|x| x.to_raw_file()));
-                let _ = dir.to_raw_directory();
                 r
             }
         }
@@ -325,9 +319,8 @@ where
         match fl {
             Fl::Raw => with_name!(name, n => VolumeManager::delete_file_in_dir(self, d, n)),
             _ => {
-                let dir = d.to_directory(self);
+                let dir = core::mem::ManuallyDrop::new(d.to_directory(self));
                 let r = with_name!(name, n => dir.delete_file_in_dir(n));
-                let _ = dir.to_raw_directory();
                 r
             }
         }
@@ -336,9 +329,8 @@ where
         match fl {
             Fl::Raw => with_name!(name, n => VolumeManager::make_dir_in_dir(self, d, n)),
             _ => {
-                let dir = d.to_directory(self);
+                let dir = core::mem::ManuallyDrop::new(d.to_directory(self));
                 let r = with_name!(name, n => dir.make_dir_in_dir(n));
-                let _ = dir.to_raw_directory();
                 r
             }
         }
@@ -350,15 +342,13 @@ where
         match fl {
             Fl::Raw => VolumeManager::read(self, f, buf),
             Fl::Wrap => {
-                let file = f.to_file(self);
+                let file = core::mem::ManuallyDrop::new(f.to_file(self));
                 let r = file.read(buf);
-                let _ = file.to_raw_file();
                 r
             }
             Fl::Io => {
-                let mut file = f.to_file(self);
-                let r = embedded_io::Read::read(&mut file, buf);
-                let _ = file.to_raw_file();
+                let mut file = core::mem::ManuallyDrop::new(f.to_file(self));
+                let r = embedded_io::Read::read(&mut *file, buf);
                 r
             }
         }
@@ -367,15 +357,13 @@ where
         match fl {
             Fl::Raw => VolumeManager::write(self, f, buf).map(|_| buf.len()),
             Fl::Wrap => {
-                let file = f.to_file(self);
+                let file = core::mem::ManuallyDrop::new(f.to_file(self));
                 let r = file.write(buf).map(|_| buf.len());
-                let _ = file.to_raw_file();
                 r
             }
             Fl::Io => {
-                let mut file = f.to_file(self);
-                let r = embedded_io::Write::write(&mut file, buf);
-                let _ = file.to_raw_file();
+                let mut file = core::mem::ManuallyDrop::new(f.to_file(self));
+                let r = embedded_io::Write::write(&mut *file, buf);
                 r
             }
         }
@@ -393,15 +381,13 @@ where
         match fl {
             Fl::Raw => VolumeManager::flush_file(self, f),
             Fl::Wrap => {
-                let file = f.to_file(self);
+                let file = core::mem::ManuallyDrop::new(f.to_file(self));
                 let r = file.flush();
-                let _ = file.to_raw_file();
                 r
             }
             Fl::Io => {
-                let mut file = f.to_file(self);
-                let r = embedded_io::Write::flush(&mut file);
-                let _ = file.to_raw_file();
+                let mut file = core::mem::ManuallyDrop::new(f.to_file(self));
+                let r = embedded_io::Write::flush(&mut *file);
                 r
             }
         }
@@ -410,9 +396,8 @@ where
         match fl {
             Fl::Raw => VolumeManager::file_eof(self, f),
             _ => {
-                let file = f.to_file(self);
+                let file = core::mem::ManuallyDrop::new(f.to_file(self));
                 let r = std::panic::catch_unwind(std::panic::AssertUnwindSafe(|| file.is_eof()));
-                let _ = file.to_raw_file();
                 r.map_err(|_| embedded_sdmmc::Error::BadHandle)
             }
         }
@@ -421,9 +406,8 @@ where
         match fl {
             Fl::Raw => VolumeManager::file_seek_from_start(self, f, o),
             _ => {
-                let file = f.to_file(self);
+                let file = core::mem::ManuallyDrop::new(f.to_file(self));
                 let r = file.seek_from_start(o);
-                let _ = file.to_raw_file();
                 r
             }
         }
@@ -432,9 +416,8 @@ where
         match fl {
             Fl::Raw => VolumeManager::file_seek_from_current(self, f, o),
             _ => {
-                let file = f.to_file(self);
+                let file = core::mem::ManuallyDrop::new(f.to_file(self));
                 let r = file.seek_from_current(o);
-                let _ = file.to_raw_file();
                 r
             }
         }
@@ -443,31 +426,28 @@ where
         match fl {
             Fl::Raw => VolumeManager::file_seek_from_end(self, f, o),
             _ => {
-                let file = f.to_file(self);
+                let file = core::mem::ManuallyDrop::new(f.to_file(self));
                 let r = file.seek_from_end(o);
-                let _ = file.to_raw_file();
                 r
             }
         }
     }
     fn seek_io(&self, f: RawFile, to: SeekTo) -> R<u64> {
-        let mut file = f.to_file(self);
+        let mut file = core::mem::ManuallyDrop::new(f.to_file(self));
         let pos = match to {
             SeekTo::Start(x) => embedded_io::SeekFrom::Start(x),
             SeekTo::Current(x) => embedded_io::SeekFrom::Current(x),
             SeekTo::End(x) => embedded_io::SeekFrom::End(x),
         };
-        let r = embedded_io::Seek::seek(&mut file, pos);
-        let _ = file.to_raw_file();
+        let r = embedded_io::Seek::seek(&mut *file, pos);
         r
     }
     fn length(&self, fl: Fl, f: RawFile) -> R<u32> {
         match fl {
             Fl::Raw => VolumeManager::file_length(self, f),
             _ => {
-                let file = f.to_file(self);
+                let file = core::mem::ManuallyDrop::new(f.to_file(self));
                 let r = std::panic::catch_unwind(std::panic::AssertUnwindSafe(|| file.length()));
-                let _ = file.to_raw_file();
                 r.map_err(|_| embedded_sdmmc::Error::BadHandle)
             }
         }
@@ -476,9 +456,8 @@ where
         match fl {
             Fl::Raw => VolumeManager::file_offset(self, f),
             _ => {
-                let file = f.to_file(self);
+                let file = core::mem::ManuallyDrop::new(f.to_file(self));
                 let r = std::panic::catch_unwind(std::panic::AssertUnwindSafe(|| file.offset()));
-                let _ = file.to_raw_file();
                 r.map_err(|_| embedded_sdmmc::Error::BadHandle)
             }
         }
